@@ -72,6 +72,8 @@ def cases(rng, tier):
                 v = rng.choice([1, rng.fe()])
                 npoly = 1 + rng.below(3)
                 polys = [poly(rng, 1 + rng.below(keylen - 1)) for _ in range(npoly)]
+                if npoly >= 2 and rng.coin(1, 3):
+                    polys[rng.below(npoly - 1)] = rng.choice([[], [0], [0, 0]])   # a zero polynomial that is not last
                 evals, wz = "=", z
                 if mode == 1 and i == k - 1:      # one wrong evaluation anywhere
                     ev = [py_eval(p, z) for p in polys]
@@ -105,7 +107,23 @@ def cases(rng, tier):
     out.append({"line": "kzgsetup 0 %s %s %s" % (draw(rng), draw(rng), draw(rng)), "tags": ["setup-degree-0"], "expect": "err:DegreeIsZero"})
     for rep in range(10 if tier == "quick" else 100):
         ps = [poly(rng, rng.below(6), rng.below(3)) for _ in range(1 + rng.below(4))]
-        out.append({"line": "kzgaggw %s %s %s" % (";".join(lst(p) for p in ps), hx(rng.fe()), hx(rng.fe())), "tags": ["aggregate-witness"]})
+        if rep % 3 == 0 and len(ps) >= 2:
+            ps[rng.below(len(ps) - 1)] = rng.choice([[], [0], [0, 0]])       # a zero polynomial that is not last
+        z, vch = rng.fe(), rng.fe()
+        # definition: W = (sum_i v^i p_i - sum_i v^i p_i(z)) / (X - z)
+        agg, pw = [0] * max([len(p) for p in ps] + [1]), 1
+        for p in ps:
+            for i, c in enumerate(p):
+                agg[i] = (agg[i] + pw * c) % R
+            pw = pw * vch % R
+        q, carry = [0] * (len(agg) - 1), 0
+        for i in range(len(agg) - 1, 0, -1):
+            carry = (agg[i] + carry * z) % R
+            q[i - 1] = carry
+        while q and q[-1] == 0:
+            q.pop()
+        out.append({"line": "kzgaggw %s %s %s" % (";".join(lst(p) for p in ps), hx(z), hx(vch)), "tags": ["aggregate-witness"],
+                    "expect": lst(q)})
     return out
 
 
